@@ -118,6 +118,9 @@ def census (n : Nat) (E0 : HG) : List (Nat × Nat) := censusWith (tbls n) (class
 /-- the node set of a hypergraph, sorted (used by the specification: "every `n`-node subset") -/
 def nodesOf (E : HG) : List Nat := isort (dedup (E.flatMap id))
 
+/-- the hypergraph with every node `x` renamed to `π x` (hyperedges are stored sorted) -/
+def relabelHG (π : Nat → Nat) (E : HG) : HG := E.map fun e => isort (e.map π)
+
 /-! ## directed census -/
 
 /-- a directed hyperedge (sorted source, sorted target) -/
